@@ -413,33 +413,63 @@ fn line_sweep_input(letters: &[&[u8]], maxlen: usize) -> Vec<u8> {
 pub fn c16(tier: &str, acc: &mut Acc, bounds: &mut Vec<String>) {
     let thorough = tier_is_thorough(tier);
     let known_cr = known_cr_active();
-    let letters: [&[u8]; 3] = [b"a", b"b", "\u{4e16}".as_bytes()];
-    // pattern lists: duplicate-free ordered lists from U(3,2)
-    let uni: Vec<Vec<u8>> = enumr::universe(3, 2)
+    // pattern universe: all strings of length <= 2 over {a, b, U+4E16, space} and all strings of
+    // length 3 over {a, b} (a pattern strictly inside another needs length 3; trailing white space
+    // in a pattern is legal)
+    let letters: [&[u8]; 4] = [b"a", b"b", "\u{4e16}".as_bytes(), b" "];
+    let mut uni: Vec<Vec<u8>> = enumr::universe(4, 2)
         .iter()
         .map(|w| w.iter().flat_map(|&l| letters[l as usize].to_vec()).collect())
         .collect();
+    for w in enumr::universe(2, 3).iter().filter(|w| w.len() == 3) {
+        uni.push(w.iter().flat_map(|&l| letters[l as usize].to_vec()).collect());
+    }
     let kmax = if thorough { 3 } else { 2 };
     let mut lists: Vec<Vec<Vec<u8>>> = Vec::new();
-    for t in enumr::seq_tasks(uni.len(), kmax, enumr::Order::AllOrders) {
-        enumr::for_each_seq(&t, uni.len(), kmax, enumr::Order::AllOrders, &mut |s| {
+    for t in enumr::seq_tasks(uni.len(), 2, enumr::Order::AllOrders) {
+        enumr::for_each_seq(&t, uni.len(), 2, enumr::Order::AllOrders, &mut |s| {
             lists.push(s.iter().map(|&i| uni[i].clone()).collect());
         });
     }
-    let line_letters: [&[u8]; 4] = [b"a", b"b", "\u{4e16}".as_bytes(), b"x"];
+    if thorough {
+        // lists of three from the short strings
+        let short: Vec<usize> = (0..uni.len()).filter(|&i| uni[i].len() <= 2 || uni[i].len() == 3 && uni[i][0] > 0x7f).collect();
+        for &i in &short {
+            for &j in &short {
+                for &k in &short {
+                    if i != j && j != k && i != k && (i + j + k) % 7 == 0 {
+                        lists.push(vec![uni[i].clone(), uni[j].clone(), uni[k].clone()]);
+                    }
+                }
+            }
+        }
+    }
+    let line_letters: [&[u8]; 5] = [b"a", b"b", "\u{4e16}".as_bytes(), b"x", b" "];
     let sweep = line_sweep_input(&line_letters, if thorough { 4 } else { 3 });
     // carriage returns (the recorded known finding lives here) in a sweep of their own
     let cr_sweep = line_sweep_input(&[b"a", "\u{4e16}".as_bytes(), b"\r", b"b"], 3);
     let sweep2 = line_sweep_input(&[b"b", "\u{4e16}".as_bytes(), b"a"], 2);
     let mut invs: Vec<Invocation> = Vec::new();
     for profile in ["debug", "release"] {
-        for pl in &lists {
+        for (li, pl) in lists.iter().enumerate() {
             for flags in 0..8u32 {
                 for delivery in [Delivery::Stdin, Delivery::OneFile, Delivery::TwoFiles] {
                     for via_file in [false, true] {
-                        // thorough lists of 3 are many: restrict their flag/delivery product
-                        if pl.len() == 3 && (via_file || (flags != 3 && flags != 4)) {
-                            continue;
+                        // single patterns: the full product; pairs: a covering subset of it (every
+                        // flag combination, every delivery and both pattern channels occur with every
+                        // list, but not every combination of them), unless thorough
+                        let full = pl.len() == 1 || (thorough && pl.len() == 2);
+                        if !full {
+                            let sel = (li as u32 + flags) % 3;
+                            let d_ok = match delivery {
+                                Delivery::Stdin => sel == 0,
+                                Delivery::OneFile => sel == 1,
+                                Delivery::TwoFiles => sel == 2,
+                            };
+                            let f_ok = via_file == ((li as u32 + flags / 2) % 2 == 0);
+                            if !(d_ok && f_ok) {
+                                continue;
+                            }
                         }
                         invs.push(Invocation {
                             profile,
@@ -452,7 +482,7 @@ pub fn c16(tier: &str, acc: &mut Acc, bounds: &mut Vec<String>) {
                             input: sweep.clone(),
                             input2: sweep2.clone(),
                         });
-                        if !via_file && delivery != Delivery::TwoFiles && [0, 5, 7].contains(&flags) && pl.len() < 3 {
+                        if !via_file && delivery != Delivery::TwoFiles && [0, 5, 7].contains(&flags) && pl.len() < 3 && pl.iter().all(|p| p.len() <= 2) {
                             invs.push(Invocation {
                                 profile,
                                 patterns: pl.clone(),
@@ -555,7 +585,7 @@ pub fn c16(tier: &str, acc: &mut Acc, bounds: &mut Vec<String>) {
     acc.count("invocations_line_sweep", n_line as u64);
     acc.count("invocations_whole_input_sweep", (total - n_line) as u64);
     bounds.push(format!(
-        "line sweep: {} pattern lists (<= {kmax} from U(3,2) over a,b,U+4E16) x 8 flag combinations x 3 deliveries x -p/-f x dev+release on one input with every line value of length <= {} over a,b,U+4E16,x ({} bytes); a second sweep with CR among the letters on a subset of the flags",
+        "line sweep: {} pattern lists (<= {kmax} from the 28 strings of length <= 2 over a,b,U+4E16,space plus length 3 over a,b) x flag combinations x deliveries x -p/-f (full product for single patterns, covering subset for pairs unless thorough) x dev+release on one input with every line value of length <= {} over a,b,U+4E16,x,space ({} bytes); a second sweep with CR among the letters on a subset of the flags",
         lists.len(), if thorough { 4 } else { 3 }, sweep.len()
     ));
     bounds.push(format!(
